@@ -1971,6 +1971,73 @@ private theorem blockValid_of_chain (e : Env) (g : St) (hpl : ParentLower e) (bi
   rw [ancestors_child e hpl bi p hpre, List.reverse_cons] at hch
   exact (chainValid_snoc e _ bi g hch).2
 
+-- ------------------------------------------------------------------ a confirmed transaction cannot be admitted again
+
+private theorem chainValid_pValid (e : Env) (l : List Nat) (r : St) (h : ChainValid e l r) :
+    pValid e (chainOps e l) r := by
+  induction l generalizing r with
+  | nil => trivial
+  | cons bi rest ih =>
+    obtain ⟨hb, hr⟩ := h
+    unfold chainOps
+    rw [List.flatMap_cons]
+    apply (pValid_append e _ _ r).mpr
+    obtain ⟨lhb, s2b, hfwd⟩ := hb.fwd
+    refine ⟨pValid_of_applyBlockTxs e lhb _ _ r s2b hfwd, ?_⟩
+    have hT : TabEq (replayBlock e r (e.block bi)) (prun e (blockOps (e.block bi).prop (e.block bi).txs) r) := by
+      rw [prun_blockOps]
+      exact TabEq.of_tables (x := replayTxs e (e.block bi).prop (e.block bi).txs r) ⟨rfl, rfl, rfl, rfl⟩
+    exact ((chainSys e).congr _ _ _ hT (ih _ hr)).1
+
+private theorem blockOps_ids (prop : String) (l : List Nat) :
+    (blockOps prop l).map opId = l.flatMap (fun j => [j, j]) := by
+  induction l with
+  | nil => rfl
+  | cons i rest ih => rw [blockOps_cons]; simp [opId, ih]
+
+private theorem chainOps_ids (e : Env) (l : List Nat) :
+    (chainOps e l).map opId = (l.flatMap (fun bi => (e.block bi).txs)).flatMap (fun j => [j, j]) := by
+  induction l with
+  | nil => rfl
+  | cons bi rest ih =>
+    unfold chainOps at ih ⊢
+    rw [List.flatMap_cons, List.map_append, ih, blockOps_ids, List.flatMap_cons, List.flatMap_append]
+
+/-- in the doubled list of a list without repetitions, an element that stands on both sides of an occurrence of `i` is `i` -/
+private theorem dup_split (L : List Nat) (hnd : L.Nodup) : ∀ (X Y : List Nat) (i a : Nat),
+    L.flatMap (fun j => [j, j]) = X ++ i :: Y → a ∈ X → a ∈ Y → a = i := by
+  induction L with
+  | nil => intro X Y i a h; simp at h
+  | cons j L' ih =>
+    intro X Y i a h haX haY
+    simp only [List.nodup_cons] at hnd
+    rw [List.flatMap_cons] at h
+    simp only [List.cons_append, List.nil_append] at h
+    have hsub : ∀ z, z ∈ L'.flatMap (fun j => [j, j]) → z ∈ L' := by
+      intro z hz
+      obtain ⟨w, hw, hzw⟩ := List.mem_flatMap.mp hz
+      simp only [List.mem_cons, List.not_mem_nil, or_false, or_self] at hzw
+      rw [hzw]; exact hw
+    match X, h, haX with
+    | [x1], h, haX =>
+      simp only [List.cons_append, List.nil_append, List.cons.injEq] at h
+      simp only [List.mem_cons, List.not_mem_nil, or_false] at haX
+      rw [haX, ← h.1, h.2.1]
+    | x1 :: x2 :: X', h, haX =>
+      simp only [List.cons_append, List.cons.injEq] at h
+      obtain ⟨h1, h2, h3⟩ := h
+      rcases List.mem_cons.mp haX with hx | hx
+      · exfalso
+        have : a ∈ L'.flatMap (fun j => [j, j]) := by rw [h3]; simp [haY]
+        rw [hx, ← h1] at this
+        exact hnd.1 (hsub _ this)
+      · rcases List.mem_cons.mp hx with hx | hx
+        · exfalso
+          have : a ∈ L'.flatMap (fun j => [j, j]) := by rw [h3]; simp [haY]
+          rw [hx, ← h2] at this
+          exact hnd.1 (hsub _ this)
+        · exact ih hnd.2 X' Y i a h3 hx haY
+
 -- ================================================================== the closing induction over histories
 
 /-- the hypotheses on the environment (static: they do not mention the node). Block tree with parent links strictly
@@ -2024,40 +2091,165 @@ def step (e : Env) (s : St) : Op → St
 def run (e : Env) (s : St) (ops : List Op) : St := ops.foldl (step e) s
 
 /-- what is asked of one operation of a history, in the state it is applied to (everything else follows from `EnvOK`
-and the invariant). A submitted transaction that is ACCEPTED is well-formed, cites declared frozen heights, has a fresh
-id and is not already confirmed on the node's chain. Nothing is asked of a peer's block. The node's own block, if
-accepted: coinbase transactions new and without key writes, the others pending, a prefix of the pool. A walk goes to a
-registered block and, if it succeeds, no transaction it re-admits is confirmed on the destination's chain; a walk that
+and the invariant). A submitted transaction that is ACCEPTED is well-formed, cites declared frozen heights and has a fresh
+id; if it has no token input it must not be confirmed on the node's chain already (a transaction with a token input that
+is confirmed cannot be accepted: its input is spent — `spent_on_chain`). Nothing is asked of a peer's block. The node's
+own block, if accepted: coinbase transactions new and without key writes, the others pending, a prefix of the pool. A
+walk goes to a registered block, and a pending transaction WITHOUT token input that is confirmed on the destination's
+chain is not among the re-admitted ones (again: with a token input it cannot be); a walk that
 FAILS (an undo refused at the irreversible height, a block refused at this ledger height) is covered too: it leaves the
 node at the block it reached, with an empty pool (`inv_walk_fail`). -/
 def OpOK (e : Env) (g : St) (s : St) : Op → Prop
   | .submit lh i => (doTx e s lh i).2 = .ok →
-      TxWF e i ∧ StaticFrozen e i ∧ IdFresh g i ∧ i ∉ chainTxs e s.pointer
+      TxWF e i ∧ StaticFrozen e i ∧ IdFresh g i ∧ ((e.tx i).ins ≠ [] ∨ i ∉ chainTxs e s.pointer)
   | .play _ _ => True
   | .playMiner lh bi => (playForMiner e s lh (e.block bi)).2 = .ok →
       (∀ i ∈ (e.block bi).txs, (e.tx i).coinbase = false → i ∈ s.pool) ∧
       (∀ i ∈ (e.block bi).txs, (e.tx i).coinbase = true → i ∉ s.pool ∧ (e.tx i).kout = []) ∧
       (∀ a ∈ s.pool, a ∉ (e.block bi).txs → ∀ i ∈ (e.block bi).txs, i ∈ s.pool → [i, a].Sublist s.pool)
   | .walk lh dest prune => dest ∈ e.blocks.map (·.1) ∧
-      ((walk e s lh dest prune).2 = true → ∀ i ∈ (walk e s lh dest prune).1.pool, i ∉ chainTxs e dest)
+      ∀ i ∈ s.pool, (e.tx i).ins ≠ [] ∨ i ∉ chainTxs e dest ∨ i ∉ (walk e s lh dest prune).1.pool
 
 /-- `OpOK` for every operation of the history, each in the state it is applied to -/
 def HistOK (e : Env) (g : St) : St → List Op → Prop
   | _, [] => True
   | s, op :: rest => OpOK e g s op ∧ HistOK e g (step e s op) rest
 
+/-- **an input of a transaction that is confirmed on the chain of `p` is a spent row, in the canonical state of `p` and
+with any pending transactions (fresh ids, not on the chain) applied on top** -/
+private theorem spent_on_chain (e : Env) (g : St) (p : Nat) (he : EnvOK e g) (hp : p ∈ e.blocks.map (·.1))
+    (P : List Nat) (hP : ∀ j ∈ P, j ∉ chainTxs e p ∧ IdFresh g j ∧ (e.tx j).id = j)
+    (i : Nat) (hi : i ∈ chainTxs e p) (r : InRef) (hr : r ∈ (e.tx i).ins) :
+    lookup (applyPool e P (canon e g p)).U (r.tx, r.off) = none := by
+  have hch := he.chains p hp
+  have hnd := he.chainNodup p hp
+  have hwfc := chainValid_wf e _ g hch
+  have hT := applyPool_tabEq e P _ _ (canon_tabEq e g p)
+  rw [hT.U, applyPool_as_prun, ← prun_append]
+  -- split the operations of the chain at `app i`
+  have happ : POp.app i ∈ chainOps e (ancestors e (e.blocks.length + 1) p).reverse := by
+    unfold chainTxs at hi
+    obtain ⟨bi, hbi, hib⟩ := List.mem_flatMap.mp hi
+    unfold chainOps
+    apply List.mem_flatMap.mpr
+    refine ⟨bi, hbi, ?_⟩
+    unfold blockOps
+    exact List.mem_flatMap.mpr ⟨i, hib, by simp⟩
+  obtain ⟨A, B', hsplit⟩ := List.append_of_mem happ
+  have hwi := hwfc i hi
+  have hri : r.tx ≠ i := hwi.self r hr
+  rw [hsplit, List.append_assoc, prun_append]
+  simp only [List.cons_append]
+  rw [prun_cons]
+  have hidc : ∀ op ∈ chainOps e (ancestors e (e.blocks.length + 1) p).reverse, (e.tx (opId op)).id = opId op :=
+    fun op hop => (hwfc _ (opId_chainOps e _ op hop)).id
+  apply prun_row_absent e _ _ r.tx r.off
+  · intro op hop
+    rcases List.mem_append.mp hop with h | h
+    · exact hidc op (by rw [hsplit]; simp [h])
+    · obtain ⟨j, hj, rfl⟩ := List.mem_map.mp h
+      exact (hP j hj).2.2
+  · -- no later operation carries the id r.tx
+    intro op hop hid
+    -- the row was there when `i` was admitted
+    have hv := chainValid_pValid e _ g hch
+    rw [hsplit] at hv
+    obtain ⟨_, hv2⟩ := (pValid_append e _ _ g).mp hv
+    obtain ⟨⟨lh, hadm⟩, _⟩ := (pValid_cons e _ _ _).mp hv2
+    obtain ⟨hcur, _⟩ := XV.C03.admit_sound _ lh _ hadm
+    obtain ⟨u, hu, _⟩ := hcur r hr
+    rcases List.mem_append.mp hop with h | h
+    · -- a later operation of the chain: then r.tx is a chain transaction, created before `i`, so twice on the chain
+      have hrc : r.tx ∈ chainTxs e p := by
+        rw [← hid]
+        exact opId_chainOps e _ op (by rw [hsplit]; simp [h])
+      have hinA : r.tx ∈ A.map opId := by
+        cases hAm : decide (r.tx ∈ A.map opId) with
+        | true => simpa using hAm
+        | false =>
+          exfalso
+          have hnA : r.tx ∉ A.map opId := by simpa using hAm
+          have := prun_row_other e A g r.tx r.off u
+            (fun op' hop' => hidc op' (by rw [hsplit]; simp [hop']))
+            (fun op' hop' h' => hnA (List.mem_map.mpr ⟨op', hop', h'⟩)) hu
+          obtain ⟨bi, hbi, hib⟩ := List.mem_flatMap.mp hrc
+          have hk : bi ∈ e.blocks.map (·.1) := by
+            -- a block on the chain of a registered block: its transactions are fresh in `g` (via `blockFresh` of any
+            -- registered block that contains it) — use that the chain's blocks are ancestors
+            by_cases hbk : bi ∈ e.blocks.map (·.1)
+            · exact hbk
+            · exfalso
+              -- an unregistered block is the default block: it has no transactions
+              have : e.block bi = default := by
+                unfold Env.block
+                cases hl : lookup e.blocks bi with
+                | none => rfl
+                | some v =>
+                  exfalso
+                  apply hbk
+                  have hm := lookup_mem e.blocks bi v hl
+                  exact List.mem_map.mpr ⟨(bi, v), hm, rfl⟩
+              rw [this] at hib
+              cases hib
+          have hfr := he.blockFresh bi hk r.tx hib
+          rw [absent_of_rows _ _ hfr.1 r.off] at this
+          cases this
+      have hids := chainOps_ids e (ancestors e (e.blocks.length + 1) p).reverse
+      rw [hsplit, List.map_append, List.map_cons] at hids
+      simp only [opId] at hids
+      have := dup_split _ hnd (A.map opId) (B'.map opId) i r.tx hids.symm hinA
+        (List.mem_map.mpr ⟨op, h, hid⟩)
+      exact hri this
+    · -- a pending transaction
+      obtain ⟨j, hj, rfl⟩ := List.mem_map.mp h
+      simp only [opId] at hid
+      obtain ⟨hjc, hjf, _⟩ := hP j hj
+      by_cases hrc : r.tx ∈ chainTxs e p
+      · exact hjc (hid ▸ hrc)
+      · have := prun_row_other e A g r.tx r.off u
+          (fun op' hop' => hidc op' (by rw [hsplit]; simp [hop']))
+          (fun op' hop' h' => hrc (h' ▸ opId_chainOps e _ op' (by rw [hsplit]; simp [hop']))) hu
+        rw [← hid, absent_of_rows _ _ hjf.1 r.off] at this
+        cases this
+  · -- right after `i` the row is gone
+    simp only [pstep]
+    have hk : (r.tx, r.off).1 ≠ (e.tx i).id := by rw [hwi.id]; exact hri
+    rw [applyTx_lookup_otherid _ (e.tx i) _ hk, if_pos (List.mem_map.mpr ⟨r, hr, rfl⟩)]
+
+/-- a transaction with a token input that is accepted by `doTx` is not confirmed on the chain of the tip -/
+private theorem not_confirmed_of_ok (e : Env) (g : St) (p : Nat) (he : EnvOK e g) (hp : p ∈ e.blocks.map (·.1))
+    (st : St) (lh : Int) (i : Nat) (hst : TRefines st (applyPool e st.pool (canon e g p)))
+    (hpool : ∀ j ∈ st.pool, j ∉ chainTxs e p ∧ IdFresh g j ∧ (e.tx j).id = j)
+    (hok : (doTx e st lh i).2 = .ok) (hins : (e.tx i).ins ≠ []) : i ∉ chainTxs e p := by
+  intro hi
+  obtain ⟨_, hadm, _⟩ := XV.C03.doTx_ok e st lh i hok
+  obtain ⟨hcur, _⟩ := XV.C03.admit_sound st lh _ hadm
+  obtain ⟨r, hr⟩ := List.exists_mem_of_ne_nil _ hins
+  obtain ⟨u, hu, _⟩ := hcur r hr
+  rw [hst.obs.U, spent_on_chain e g p he hp st.pool hpool i hi r hr] at hu
+  cases hu
+
 private theorem Inv.freshU {e : Env} {g s : St} (he : EnvOK e g) (h : Inv e g s) :
     ∀ i ∈ s.pool, ∀ o, lookup (canon e g s.pointer).U (i, o) = none :=
   fun i hi => (canon_fresh e g s.pointer i (he.chains _ h.known) (h.static i hi).2 (h.disjoint i hi)).1
 
+private theorem Inv.poolFacts {e : Env} {g s : St} (h : Inv e g s) :
+    ∀ j ∈ s.pool, j ∉ chainTxs e s.pointer ∧ IdFresh g j ∧ (e.tx j).id = j :=
+  fun j hj => ⟨h.disjoint j hj, (h.static j hj).2, (((poolValid_iff e _ _).mp h.pool).wf j hj).id⟩
+
 private theorem inv_submit (e : Env) (g s : St) (lh : Int) (i : Nat) (he : EnvOK e g) (h : Inv e g s)
     (hop : OpOK e g s (.submit lh i)) : Inv e g (doTx e s lh i).1 := by
   have hch := he.chains _ h.known
+  have hni : (doTx e s lh i).2 = .ok → i ∉ chainTxs e s.pointer := by
+    intro hok
+    rcases (hop hok).2.2.2 with hins | hn
+    · exact not_confirmed_of_ok e g s.pointer he h.known s lh i h.refines h.poolFacts hok hins
+    · exact hn
   obtain ⟨a1, a2, a3, a4, a5⟩ := doTx_refines e s lh i (canon e g s.pointer) h.refines h.pool h.nodup
     (canon_frozenInv e g _ hch he.frozen)
     (fun hok => by
-      obtain ⟨w, sf, fr, ni⟩ := hop hok
-      exact ⟨w, sf, (canon_fresh e g s.pointer i hch fr ni).1⟩)
+      obtain ⟨w, sf, fr, _⟩ := hop hok
+      exact ⟨w, sf, (canon_fresh e g s.pointer i hch fr (hni hok)).1⟩)
   have hmem : ∀ j ∈ (doTx e s lh i).1.pool, j ∈ s.pool ∨ (j = i ∧ (doTx e s lh i).2 = .ok) := by
     intro j hj
     by_cases hok : (doTx e s lh i).2 = .ok
@@ -2073,7 +2265,7 @@ private theorem inv_submit (e : Env) (g s : St) (lh : Int) (i : Nat) (he : EnvOK
     rw [a4]
     rcases hmem j hj with h1 | ⟨rfl, hok⟩
     · exact h.disjoint j h1
-    · exact (hop hok).2.2.2
+    · exact hni hok
   · intro j hj
     rcases hmem j hj with h1 | ⟨rfl, hok⟩
     · exact h.static j h1
@@ -2193,44 +2385,61 @@ private theorem foldl_doTx_pool_mono (e : Env) (lh : Int) (l : List Nat) (st : S
     · rw [h5]; exact hj
     · rw [h5]; exact List.mem_append_left _ hj
 
-/-- the re-admission loop of `walk` (`recoverUnconfirmedTx`) keeps "the state refines `C` + pool" and `PoolValid`,
-provided the transactions that end up pending have no row in `C` -/
-private theorem readmit_inv (e : Env) (lh : Int) (C : St) (hfz : FrozenInv e C) :
-    ∀ (l : List Nat) (st : St), TRefines st (applyPool e st.pool C) → PoolValid e st.pool C → st.pool.Nodup →
-      (∀ i ∈ l, TxWF e i ∧ StaticFrozen e i) →
-      (∀ j ∈ (l.foldl (fun st i => (doTx e st lh i).1) st).pool, j ∈ st.pool ∨ ∀ o, lookup C.U (j, o) = none) →
+/-- the re-admission loop of `walk` (`recoverUnconfirmedTx`) keeps "the state refines canon(dest) + pool", `PoolValid` and
+"no pending transaction is confirmed on the chain of `dest`" -/
+private theorem readmit_inv2 (e : Env) (g : St) (lh : Int) (dest : Nat) (he : EnvOK e g)
+    (hdest : dest ∈ e.blocks.map (·.1)) :
+    ∀ (l : List Nat) (st : St), TRefines st (applyPool e st.pool (canon e g dest)) →
+      PoolValid e st.pool (canon e g dest) → st.pool.Nodup →
+      (∀ j ∈ st.pool, j ∉ chainTxs e dest ∧ IdFresh g j) →
+      (∀ i ∈ l, TxWF e i ∧ StaticFrozen e i ∧ IdFresh g i) →
+      (∀ i ∈ l, (e.tx i).ins ≠ [] ∨ i ∉ chainTxs e dest ∨
+        i ∉ (l.foldl (fun st i => (doTx e st lh i).1) st).pool) →
       TRefines (l.foldl (fun st i => (doTx e st lh i).1) st)
-        (applyPool e (l.foldl (fun st i => (doTx e st lh i).1) st).pool C) ∧
-      PoolValid e (l.foldl (fun st i => (doTx e st lh i).1) st).pool C ∧
-      (l.foldl (fun st i => (doTx e st lh i).1) st).pool.Nodup := by
+        (applyPool e (l.foldl (fun st i => (doTx e st lh i).1) st).pool (canon e g dest)) ∧
+      PoolValid e (l.foldl (fun st i => (doTx e st lh i).1) st).pool (canon e g dest) ∧
+      (l.foldl (fun st i => (doTx e st lh i).1) st).pool.Nodup ∧
+      (∀ j ∈ (l.foldl (fun st i => (doTx e st lh i).1) st).pool, j ∉ chainTxs e dest ∧ IdFresh g j) := by
+  have hchd := he.chains _ hdest
   intro l
   induction l with
-  | nil => intro st h1 h2 h3 _ _; exact ⟨h1, h2, h3⟩
+  | nil => intro st h1 h2 h3 h4 _ _; exact ⟨h1, h2, h3, h4⟩
   | cons i rest ih =>
-    intro st h1 h2 h3 hst hfin
-    simp only [List.foldl_cons] at hfin ⊢
-    obtain ⟨a1, a2, a3, _, _⟩ := doTx_refines e st lh i C h1 h2 h3 hfz (fun hok => by
-      obtain ⟨hnp, _, hs'⟩ := XV.C03.doTx_ok e st lh i hok
-      refine ⟨(hst i List.mem_cons_self).1, (hst i List.mem_cons_self).2, ?_⟩
-      have hi1 : i ∈ (doTx e st lh i).1.pool := by rw [hs']; simp
-      rcases hfin i (foldl_doTx_pool_mono e lh rest _ i hi1) with h | h
-      · exact absurd h hnp
-      · exact h)
-    apply ih _ a1 a2 a3 (fun j hj => hst j (List.mem_cons_of_mem _ hj))
+    intro st h1 h2 h3 hgd hst hcand
+    simp only [List.foldl_cons] at hcand ⊢
+    have hwfP := ((poolValid_iff e _ _).mp h2).wf
+    have hgood : (doTx e st lh i).2 = .ok → i ∉ chainTxs e dest := by
+      intro hok
+      rcases hcand i List.mem_cons_self with hins | hn | hn
+      · exact not_confirmed_of_ok e g dest he hdest st lh i h1
+          (fun j hj => ⟨(hgd j hj).1, (hgd j hj).2, (hwfP j hj).id⟩) hok hins
+      · exact hn
+      · exfalso
+        obtain ⟨_, _, hs'⟩ := XV.C03.doTx_ok e st lh i hok
+        have hi1 : i ∈ (doTx e st lh i).1.pool := by rw [hs']; simp
+        exact hn (foldl_doTx_pool_mono e lh rest _ i hi1)
+    obtain ⟨a1, a2, a3, _, _⟩ := doTx_refines e st lh i (canon e g dest) h1 h2 h3
+      (canon_frozenInv e g dest hchd he.frozen) (fun hok =>
+        ⟨(hst i List.mem_cons_self).1, (hst i List.mem_cons_self).2.1,
+          (canon_fresh e g dest i hchd (hst i List.mem_cons_self).2.2 (hgood hok)).1⟩)
+    apply ih _ a1 a2 a3 _ (fun j hj => hst j (List.mem_cons_of_mem _ hj))
+      (fun j hj => hcand j (List.mem_cons_of_mem _ hj))
     intro j hj
-    rcases hfin j hj with h | h
-    · left
-      rcases doTx_pool_cases e st lh i with h5 | ⟨_, h5⟩
-      · rw [h5]; exact h
-      · rw [h5]; exact List.mem_append_left _ h
-    · exact Or.inr h
+    rcases doTx_pool_cases e st lh i with h5 | ⟨hok, h5⟩
+    · rw [h5] at hj; exact hgd j hj
+    · rw [h5] at hj
+      rcases List.mem_append.mp hj with h6 | h6
+      · exact hgd j h6
+      · simp only [List.mem_cons, List.not_mem_nil, or_false] at h6
+        rw [h6]
+        exact ⟨hgood hok, (hst i List.mem_cons_self).2.2⟩
 
 private theorem inv_walk (e : Env) (g s : St) (lh : Int) (dest : Nat) (prune : Bool) (he : EnvOK e g) (h : Inv e g s)
     (hop : (walk e s lh dest prune).2 = true ∧ dest ∈ e.blocks.map (·.1) ∧
-      ∀ i ∈ (walk e s lh dest prune).1.pool, i ∉ chainTxs e dest) : Inv e g (walk e s lh dest prune).1 := by
-  obtain ⟨hok, hdest, hni⟩ := hop
+      ∀ i ∈ s.pool, (e.tx i).ins ≠ [] ∨ i ∉ chainTxs e dest ∨ i ∉ (walk e s lh dest prune).1.pool) :
+    Inv e g (walk e s lh dest prune).1 := by
+  obtain ⟨hok, hdest, hcand⟩ := hop
   have hchain := he.chains _ h.known
-  have hchd := he.chains _ hdest
   have hpt := walk_reaches_any e s lh dest prune he.lower (he.blockId dest hdest) hok
   have hpool := h.pool
   have hs := h.refines
@@ -2250,16 +2459,14 @@ private theorem inv_walk (e : Env) (g s : St) (lh : Int) (dest : Nat) (prune : B
     rcases hsub j hj with h5 | h5
     · cases h5
     · exact h5
-  obtain ⟨r1, r2, r3⟩ := readmit_inv e lh (canon e g dest) (canon_frozenInv e g dest hchd he.frozen) s.pool s2
+  obtain ⟨r1, r2, r3, r4⟩ := readmit_inv2 e g lh dest he hdest s.pool s2
     (by rw [t2]; exact t1) (by rw [t2]; trivial) (by rw [t2]; exact List.nodup_nil)
-    (fun i hi => ⟨(txWF_iff e i).mpr (hwfP i hi), (h.static i hi).1⟩)
-    (fun j hj => by
-      right
-      rw [← t3] at hj
-      exact (canon_fresh e g dest j hchd (h.static j (hmem j hj)).2 (hni j hj)).1)
-  rw [← t3] at r1 r2 r3
+    (fun j hj => by rw [t2] at hj; cases hj)
+    (fun i hi => ⟨(txWF_iff e i).mpr (hwfP i hi), (h.static i hi).1, (h.static i hi).2⟩)
+    (fun i hi => by rw [← t3]; exact hcand i hi)
+  rw [← t3] at r1 r2 r3 r4
   refine ⟨by rw [hpt]; exact hdest, by rw [hpt]; exact r1, by rw [hpt]; exact r2, r3, ?_, ?_⟩
-  · rw [hpt]; exact hni
+  · rw [hpt]; exact fun j hj => (r4 j hj).1
   · exact fun j hj => h.static j (hmem j hj)
 
 -- ------------------------------------------------------------------ a walk that fails
@@ -2441,7 +2648,7 @@ theorem step_invariant (e : Env) (g s : St) (op : Op) (he : EnvOK e g) (h : Inv 
   | walk lh dest prune =>
     obtain ⟨hdest, hni⟩ := hop
     by_cases hok : (walk e s lh dest prune).2 = true
-    · exact inv_walk e g s lh dest prune he h ⟨hok, hdest, hni hok⟩
+    · exact inv_walk e g s lh dest prune he h ⟨hok, hdest, hni⟩
     · exact inv_walk_fail e g s lh dest prune he h hdest (by simpa using hok)
 
 /-- **the closing induction: after ANY history the node is on "canonical state of its tip + pool".** Environment as in
@@ -2545,6 +2752,16 @@ private theorem hsEnvOK : EnvOK hsEnv prG := by
 example : EnvOK hsEnv prG := hsEnvOK
 example : Inv hsEnv prG hsS0 := genesis_inv hsEnv prG 1 (by decide)
 example : HistOK hsEnv prG hsS0 hsOps := by decide
+-- every submitted / pending transaction of this history has a token input: nothing dynamic is assumed of it
+example : ∀ i ∈ [21, 22, 23, 24, 26, 27], (hsEnv.tx i).ins ≠ [] := by decide
+-- the theorems applied
+example : Inv hsEnv prG (run hsEnv hsS0 hsOps) :=
+  chain_refines hsEnv prG hsS0 hsOps hsEnvOK (genesis_inv hsEnv prG 1 (by decide)) (by decide)
+example : ObsT (run hsEnv hsS0 hsOps)
+    (applyPool hsEnv (run hsEnv hsS0 hsOps).pool (canon hsEnv prG (run hsEnv hsS0 hsOps).pointer)) :=
+  (chain_observables hsEnv prG hsS0 hsOps hsEnvOK (genesis_inv hsEnv prG 1 (by decide)) (by decide)).2
+example : Inv hsEnv prG (step hsEnv hsS0 (.submit 0 21)) :=
+  step_invariant hsEnv prG hsS0 _ hsEnvOK (genesis_inv hsEnv prG 1 (by decide)) (by decide)
 -- the conclusion, computed: the node is at block 4 with an empty pool and shows the tables of the chain 1 2 4
 example :
     let s := run hsEnv hsS0 hsOps
@@ -2712,14 +2929,14 @@ theorem undo_cancels_apply_history (e : Env) (g s : St) (lh lh' : Int) (dest : N
     have := walk_pool_sub e s lh dest prune hok1 j hj
     rw [hp] at this; cases this
   have h1 : Inv e g (walk e s lh dest prune).1 :=
-    inv_walk e g s lh dest prune he h ⟨hok1, hdest, fun i hi => by rw [hp1] at hi; cases hi⟩
+    inv_walk e g s lh dest prune he h ⟨hok1, hdest, fun i hi => by rw [hp] at hi; cases hi⟩
   have hp2 : (walk e (walk e s lh dest prune).1 lh' s.pointer prune').1.pool = [] := by
     apply List.eq_nil_iff_forall_not_mem.mpr
     intro j hj
     have := walk_pool_sub e _ lh' s.pointer prune' hok2 j hj
     rw [hp1] at this; cases this
   have h2 : Inv e g (walk e (walk e s lh dest prune).1 lh' s.pointer prune').1 :=
-    inv_walk e g _ lh' s.pointer prune' he h1 ⟨hok2, h.known, fun i hi => by rw [hp2] at hi; cases hi⟩
+    inv_walk e g _ lh' s.pointer prune' he h1 ⟨hok2, h.known, fun i hi => by rw [hp1] at hi; cases hi⟩
   have hpt := walk_reaches_any e _ lh' s.pointer prune' he.lower (he.blockId _ h.known) hok2
   refine ⟨hpt, hp2, ?_⟩
   have a := h2.refines
